@@ -15,6 +15,8 @@ CHECKS = {
  "C09": "Runner-removal formulas (void in full and complete, reduction within half a cent applied once per market, no spurious reduction) checked by TLC on the design model and on recorded middleware passes incl. two-market runs.",
  "C20": "Closure bookkeeping (Closure.tla: repeated CLOSED books, re-open, first-seen-closed, removal after an hour in live) is model checked; every closing update of real simulation runs is judged by the same formulas (callbacks once per closing update and receiving strategy, cleared events, flags, released state).",
  "C10": "Runner-context accounting recounted from the orders by TLA+ formulas at the end of every update (design: every reachable state; real code: every recorded update); limits checked at every accepted placement.",
+ "C13": "Isolation: TLC proves on the matching specification that a strategy's fills are independent of another strategy's orders when isolation is on (and finds a difference when it is off); ledgers of run(A), run(A+B), run(B+A) through the real stack are compared by TLC. Containment: exceptions injected into every callback kind; deliveries, step order and the lifecycle/accounting/blotter formulas are judged by TLC on the recorded runs.",
+ "C14": "The listener filter and the event-group merge loop are a TLA+ specification (EventMerge.tla) model checked for sortedness / per-market order / exactly-once; its prediction must equal the delivered sequence of every real run; ledgers of runs in fresh processes with different hash seeds and clock offsets must be identical; the real clock must be restored, also after an aborted run.",
  "C15": "Blotter membership / live-list formulas checked by TLC on the design model and on traces of the real code.",
 }
 def chk(pid, text):
